@@ -106,6 +106,9 @@ package transport
 // read). PeekLine looks at a whole packet in the reader's buffer, so the
 // buffered readers it is given hold a packet of the maximal size (65520
 // bytes); a default bufio.Reader (4096) refuses every longer first line.
+// C39 (the report says what was applied): the report sent after the reference
+// updates follows a pack that was unpacked and stored, so its unpack line is
+// "ok"; a refused reference is reported on its own line only.
 //gvc:func ReceivePack
 //gvc:  props C34
 //gvc:  theory int
@@ -113,6 +116,7 @@ package transport
 //gvc:  opt frame args
 //gvc:  opt callees abstract
 //gvc:  sink PeekLine requires room: arg0.#bufsize >= 65520
+//gvc:  sink sendReportStatus#3 requires [C39] unpacked: arg1 == nil
 //gvc:end
 
 //gvc:func UploadPack
